@@ -62,7 +62,7 @@ struct Facts {
 }
 
 /// The per-actor lifecycle automaton over the trace.
-pub fn check_lifecycle(recs: &[Rec], facts_kill_ret: &HashMap<u64, u64>, single_thread: bool) -> Vec<(String, String, String)> {
+pub fn check_lifecycle(recs: &[Rec], facts_kill_ret: &HashMap<u64, u64>, stop_ret: &HashMap<u64, u64>, single_thread: bool) -> Vec<(String, String, String)> {
     #[derive(Default)]
     struct St {
         pre_enter: u32,
@@ -75,6 +75,7 @@ pub fn check_lifecycle(recs: &[Rec], facts_kill_ret: &HashMap<u64, u64>, single_
         after_post_stop_enter: bool,
         active: Option<Cb>,
         allowance: u32,
+        stop_allowance: u32,
     }
     let mut m: HashMap<u64, St> = HashMap::new();
     let mut v = vec![];
@@ -97,6 +98,15 @@ pub fn check_lifecycle(recs: &[Rec], facts_kill_ret: &HashMap<u64, u64>, single_
                             bad("after-kill", format!("uid {uid}: {cb:?} entered at #{} after kill() returned at #{kts}", r.ts));
                         }
                         st.allowance += 1;
+                    }
+                }
+                if let Some(sts) = stop_ret.get(uid) {
+                    if r.ts > *sts && matches!(cb, Cb::Handle | Cb::SupEvt) {
+                        // thread engine: one pick may be in flight when stop() returns
+                        if single_thread || st.stop_allowance >= 1 {
+                            bad("after-stop", format!("uid {uid}: {cb:?} entered at #{} after stop() returned at #{sts}", r.ts));
+                        }
+                        st.stop_allowance += 1;
                     }
                 }
                 match cb {
@@ -365,18 +375,22 @@ where
 /// Evaluate a finished scenario trace.
 pub fn evaluate(recs: &[Rec], trace: &Trace, single_thread: bool, picks: &[u64], stuck: bool) -> Outcome {
     let mut kill_ret: HashMap<u64, u64> = HashMap::new();
+    let mut stop_ret: HashMap<u64, u64> = HashMap::new();
     let mut graceful_req = false;
     for r in recs {
         if let Ev::Ret { op, arg, .. } = &r.ev {
             if *op == "kill" {
                 kill_ret.entry(*arg).or_insert(r.ts);
             }
+            if *op == "stop" {
+                stop_ret.entry(*arg).or_insert(r.ts);
+            }
             if *op == "stop" || *op == "drain" {
                 graceful_req = true;
             }
         }
     }
-    let mut violations = check_lifecycle(recs, &kill_ret, single_thread);
+    let mut violations = check_lifecycle(recs, &kill_ret, &stop_ret, single_thread);
     for (c, d) in trace.online_violations.lock().unwrap().iter() {
         violations.push((c.clone(), d.clone(), c.clone()));
     }
